@@ -34,7 +34,7 @@ def oracle_inclusion(run, ev, kind, info, before, after, host_before, host_after
 
 ORACLES = [oracle_inclusion]
 RULE = ('seeded histories (8-18 events: open PR on any destination, source commit/amend/rebase, manual commit on an '
-        'integration branch, approvals, comments incl. reset/force_reset/wait, build reports, PR and commit evaluations, '
+        'integration branch, approvals, comments incl. reset/force_reset/wait/no_octopus, build reports, PR and commit evaluations, '
         'rebuild/delete/force-merge queues, create/delete branch) over 8 cascade templates (1-4 destinations, '
         'stabilization, major-only, hotfix) x {queue, queue+skip, no queue} x octopus on/off x integration PRs on/off; '
         'every event compared with the model, inclusion oracle after every event; '
